@@ -2,7 +2,7 @@ HOOK_COMMITS = ['c1c434b']
 NOTES = ('All checks are driven by bin/check <ID> --tier quick|thorough; exit 0/1/2 as described in DESIGN.md 2.4. '
          'known_findings.json lists recorded defects and fixed ones.')
 _pending = 'check not built yet in this revision (see DESIGN.md); will be claimed when its specification and harness exist'
-for _p in ['C02','C03','C04','C05','C06','C07','C08','C10','C11','C13','C15','C16','C18','C19','C20']:
+for _p in ['C02','C03','C04','C05','C06','C07','C08','C10','C11','C13','C15','C18','C19','C20']:
     NA[_p] = _pending
 NA['C01'] = ('power balance needs numerical integration of the reported pattern over the sphere and a 1.5 % physical '
              'tolerance of the true kernel: numeric accuracy with no discrete content, nothing a TLA+ specification can decide (DESIGN.md section 5)')
@@ -49,3 +49,13 @@ check('C14', 'model_checking',
       'Trusted: TLC, the archetype list (harness/models.py), single-threaded BLAS for bit-exact comparison. Field requests are only issued after '
       'a compute at the current frequency (as main does); a field request after a frequency change without compute has no defined result.',
       'TLC model checking of Lifecycle.tla + history replay against fresh objects + batched trace validation', 'DESIGN.md 4 C14, 3.4')
+
+check('C16', 'model_checking',
+      'TLC enumerates (start, step, count) per axis in scaled integers with spec/Grid.tla (invariants ExactCount, OnLattice, AllOnce, Order): '
+      '5 starts x 10 steps (0.1, 0.05, 0.7, 0.3, 0.001, 0.333, negative steps) x all counts 1..40 (1..100 thorough) on each axis plus small '
+      'three-axis products, and dumps the expected point list of every case. Every case is replayed: near_field_coord, len(e_field), '
+      'len(h_field), the NEAR ELECTRIC/MAGNETIC FIELDS blocks of the report, far_field.zen/azi and the rows of both far-field tables must show '
+      'exactly these points in this order; a sampled fraction also goes through main().',
+      'Trusted: TLC, report parser. Values compared at 1e-9 relative, printed coordinates at their printed precision. Step 0 is outside the '
+      'enumerated domain.',
+      'TLC enumeration with Grid.tla + exhaustive spec-to-code replay', 'DESIGN.md 4 C16')
